@@ -184,7 +184,7 @@ PROPS = {
     },
     "C10": {
         "level": EXPL,
-        "plan": [{"engine": "hubnet", "perturb": True, "perturb_mode": "sleep", "perturb_scale": 1.0, "timeout": {"quick": 900, "thorough": 5400}, "shards": 12}],
+        "plan": [{"engine": "hubnet", "perturb": True, "perturb_mode": "sleep", "perturb_scale": 1.0, "pause_before": ["h.registerConnectionPreventingDouble(shipConnection, false)"], "pause_us": 6000, "timeout": {"quick": 900, "thorough": 5400}, "shards": 12}],
         "rule": "real hubs on loopback TLS/websocket ports, each with the real MdnsManager behind a fake mDNS bus, per-(dialler,target) TCP proxies, recording echoing applications; dial back-off table set to 0-1/1-2/2-3 s; three hubs (observed hub D and two targets), dial back-off 1-2/2-3/3-4 s so that every delayed dial waits >= 1 s; scripts of 3-12 operations on D (register, unregister, cancel, auto-accept on/off, disconnect, shutdown) interleaved with mDNS hide/show and with the targets registering/unregistering D, gaps 0-2.5 s (operations land inside pending dial delays), plus unregister / cancel / shutdown issued 0-2 ms after the target's hub accepted the websocket of D's outbound dial (while D turns that dial into a registered connection; also on the perturbed build, where seeded sleeps widen the windows between the statements); oracle over global sequence numbers/times of API call/return events and TCP accepts at D's per-target proxies: no dial to a never-registered SKI (auto-accept pairing counts as registration), no dial later than 500 ms after unregister/cancel/Shutdown returned, afterwards untrusted, no live outbound connection, no setup with auto-accept off; distinct = consecutive operation pairs",
         "assumptions": ['500 ms tolerance separates an in-flight dial from a delayed dial that ignored the call (workload design: delayed dials wait >= 1 s)'],
         "floors": {'evaluations': 30, 'classes': 30},
